@@ -5,13 +5,15 @@ sys.path.insert(0, os.path.join(os.path.dirname(os.path.abspath(__file__)), ".."
 import vcheck
 prop = types.SimpleNamespace(JUDGE=sys.argv[1])
 cases, summ = vcheck.load_cases(sys.argv[2])
+viol = [c for c in cases if c.get("violation")]
+cases = [c for c in cases if not c.get("violation")]
 wd = "/verif/.work/judge.%d" % os.getpid()
 os.makedirs(wd, exist_ok=True)
 try:
     r = vcheck.judge_cases(prop, cases, wd, shard_size=int(os.environ.get("SHARD", "100")))
 finally:
     shutil.rmtree(wd, ignore_errors=True)
-print("cases=%d nontrivial=%d bad_agree=%d bad_spec=%d error=%s" % (len(cases), r["nontrivial"], len(r["bad_agree"]), len(r["bad_spec"]), (r["error"] or "")[:2000]))
+print("cases=%d nontrivial=%d bad_agree=%d bad_spec=%d harness_violations=%d error=%s" % (len(cases), r["nontrivial"], len(r["bad_agree"]), len(r["bad_spec"]) + len(viol), len(viol), (r["error"] or "")[:2000]))
 for k in ("bad_spec", "bad_agree"):
     for i in r[k][:int(os.environ.get("SHOW", "3"))]:
         print(k, cases[i]["id"], cases[i].get("desc"))
